@@ -76,7 +76,10 @@ func verifC01Stream() {
 	if cfg == 6 && total > vParam("cap6", 7) {
 		vAssume(false) // both channels triggering squares the number of paths: shorter streams only
 	}
-	if cfg >= 7 && total > vParam("cap7", 8) {
+	if cfg == 7 && total > vParam("cap7v", 11) {
+		vAssume(false)
+	}
+	if cfg >= 8 && total > vParam("cap7", 8) {
 		vAssume(false) // edge-multi forks at nearly every sample: short streams only here (long ones in C08)
 	}
 	c01Config(rig, cfg)
